@@ -6,10 +6,12 @@ CONSTANTS
   Txs <- MCTxs
   FixTxIndexMissingBlock = FALSE
   FixZeroHashState = FALSE
+  FixLegacyZeroWriteLog = FALSE
+  LubZeroShortcut = FALSE
   WithPreConfirmed = TRUE
 INIT Init
 NEXT Next
 VIEW view
 INVARIANTS TypeOK IndexesDescribeChain
-PROPERTIES ReadsAnswerFromChain RevertedNotFound FinalityFromL1Head L1AcceptedClamped ReadsArePure RestartIsNoOp InFlightAnswersFromAHeldChain
+PROPERTIES ReadsAnswerFromChain RevertedNotFound FinalityFromL1Head L1AcceptedClamped ReadsArePure RestartIsNoOp InFlightAnswersFromAHeldChain FlagsOnlyAdd LastUpdateWithinChain
 CHECK_DEADLOCK FALSE
